@@ -304,4 +304,64 @@ def run(chk):
     for arr in ("m_coord", "m_zcorn"):
         if not any(arr in t for t in tos):
             chk.violation(r_eg, "length:load:" + arr, "initGridFromEGridFile no longer converts %s to SI for non-metric files" % arr, rd["file"], rd["l"])
+    # ---- C13.gridunit: GRIDUNIT rescales every stored length array exactly once
+    r_gu = chk.rule("C13.gridunit", "where the deck's GRIDUNIT differs from the deck units, each stored geometry array (m_coord, m_zcorn, m_rv and the retained input COORD/ZCORN that save() writes) is passed to apply_GRIDUNIT exactly once, and an application guarded by X.has_value() rescales that same X", floor=6)
+    GEOM = ("m_zcorn", "m_coord", "m_rv", "m_input_coord", "m_input_zcorn")
+    rec = fx.recs.get("Opm::EclipseGrid")
+    have = {f_["n"] for f_ in rec["fields"]} if rec else set()
+    for g in GEOM:
+        if g not in have:
+            raise core.AnalysisBroken("EclipseGrid::%s no longer exists (geometry member table of C13.gridunit)" % g)
+    par_cache = {}
+    applied = {}
+    sites = 0
+    for f in fx.fns:
+        if not f.get("body") or not f["file"].endswith("EclipseGrid.cpp"):
+            continue
+        calls = [n for n in walk_fn(f) if n["k"] == "Call" and (n.get("fn") or "").endswith("apply_GRIDUNIT") and len(n.get("a", [])) == 3]
+        if not calls:
+            continue
+        pm = {}
+        stack = [f["body"]]
+        while stack:
+            x = stack.pop()
+            for v in x.values():
+                for y in (v if isinstance(v, list) else [v]):
+                    if isinstance(y, dict) and "k" in y:
+                        pm[id(y)] = x
+                        stack.append(y)
+                    elif isinstance(y, dict):
+                        for z in y.values():
+                            if isinstance(z, dict) and "k" in z:
+                                pm[id(z)] = x
+                                stack.append(z)
+        for c in calls:
+            sites += 1
+            mems = [x["n"] for x in walk(c["a"][2]) if x["k"] == "Mem" and x["n"] in GEOM]
+            tgt = mems[0] if mems else show(c["a"][2])[:40]
+            applied.setdefault(tgt, []).append(c["l"])
+            # nearest enclosing if whose condition is X.has_value()
+            g = None
+            p_ = pm.get(id(c))
+            child = c
+            while p_ is not None:
+                if p_["k"] == "If" and any(x is child for x in walk(p_["then"])):
+                    m_, o_ = meth(strip(p_["cond"]))
+                    if m_ == "has_value" and o_ is not None and strip(o_)["k"] == "Mem":
+                        g = strip(o_)["n"]
+                        break
+                child = p_
+                p_ = pm.get(id(p_))
+            key = "apply:%s@%d" % (tgt, c["l"])
+            chk.instance(r_gu, key, sample=dict(function=f["q"], rescales=tgt, guarded_by=g))
+            if g is not None and g != tgt:
+                chk.violation(r_gu, key, "%s rescales %s under the guard %s.has_value(): %s is rescaled a second time and %s keeps the GRIDUNIT length unit (save() then writes a grid of another size)" % (f["q"], tgt, g, tgt, g), f["file"], c["l"])
+    if sites == 0:
+        raise core.AnalysisBroken("no apply_GRIDUNIT call found in EclipseGrid.cpp")
+    for g in GEOM:
+        n_ = len(applied.get(g, []))
+        chk.instance(r_gu, "once:" + g, sample=dict(array=g, applications=applied.get(g, [])))
+        if n_ != 1:
+            chk.violation(r_gu, "once:" + g, "EclipseGrid::%s is passed to apply_GRIDUNIT %d times (lines %s); each stored length array must be rescaled exactly once" % (g, n_, applied.get(g, [])), fx.fn1("Opm::EclipseGrid::save")["file"] if False else "/repo/" + EG, (applied.get(g) or [None])[0])
+
     chk.assumptions += ["closure of the parallel loop is followed to depth 3 within EclipseGrid.cpp, GridDims.cpp and calculateCellVol.cpp; std:: callees are trusted to be re-entrant"]
